@@ -938,29 +938,56 @@ func c13WindowAfterFilter(r *core.Run, rule string, fc *ssa.Function) {
 			return st, true
 		}
 		res := fl.Run()
-		for _, b := range f2.Blocks {
-			for _, in := range b.Instrs {
-				what := ""
-				switch x := in.(type) {
-				case *ssa.BinOp:
-					if k, ok := core.ConstInt(x.Y); ok && k == 1 && x.Op == token.SUB {
-						if derivesFromField(x.X, "IndexQuery", "Offset") {
-							what = "offset-counted-down"
-						} else if derivesFromField(x.X, "IndexQuery", "Limit") {
-							what = "limit-counted-down"
+		// the window counters may be kept in a small struct (window{skip: iq.Offset, remaining: limit})
+		// and counted down by its methods: a field is a window counter when it is initialised from the
+		// query's offset / limit
+		counterField := map[core.Field]string{}
+		for _, g := range p.FuncsOfPkg("store/badgerstore") {
+			for _, b := range g.Blocks {
+				for _, in := range b.Instrs {
+					if st, ok := in.(*ssa.Store); ok {
+						if f, ok := core.FieldOf(st.Addr); ok && !strings.HasSuffix(f.Struct, "IndexQuery") {
+							if derivesFromField(st.Val, "IndexQuery", "Offset") {
+								counterField[f] = "offset"
+							} else if derivesFromField(st.Val, "IndexQuery", "Limit") {
+								counterField[f] = "limit"
+							}
 						}
 					}
-				case *ssa.Call:
-					if core.CalleeName(x) == "builtin:append" && types.TypeString(x.Type(), nil) == "[]string" {
-						what = "id-appended"
+				}
+			}
+		}
+		var scope []*ssa.Function
+		for _, h := range p.Helpers(f2) {
+			scope = append(scope, h)
+		}
+		for _, h := range scope {
+			for _, b := range h.Blocks {
+				for _, in := range b.Instrs {
+					what := ""
+					switch x := in.(type) {
+					case *ssa.BinOp:
+						if k, ok := core.ConstInt(x.Y); ok && k == 1 && x.Op == token.SUB {
+							if derivesFromField(x.X, "IndexQuery", "Offset") {
+								what = "offset-counted-down"
+							} else if derivesFromField(x.X, "IndexQuery", "Limit") {
+								what = "limit-counted-down"
+							} else if f, ok := core.LoadedField(x.X); ok && counterField[f] != "" {
+								what = counterField[f] + "-counted-down"
+							}
+						}
+					case *ssa.Call:
+						if core.CalleeName(x) == "builtin:append" && types.TypeString(x.Type(), nil) == "[]string" {
+							what = "id-appended"
+						}
 					}
+					if what == "" {
+						continue
+					}
+					nOps++
+					st := res.Before[in]
+					r.Check(st.Empty() || st.Only(1), rule, core.FuncName(f2), what+"-only-for-an-entry-that-passed-the-filter", p.InstrPos(in), "reached only after the key filter accepted the entry (or no filter is set)", "an index entry the key filter has not (yet) accepted is counted against the window here: the offset then skips, or the limit counts, entries that are not part of the filtered result, so pages of a filtered query overlap or come short")
 				}
-				if what == "" {
-					continue
-				}
-				nOps++
-				st := res.Before[in]
-				r.Check(st.Empty() || st.Only(1), rule, core.FuncName(f2), what+"-only-for-an-entry-that-passed-the-filter", p.InstrPos(in), "reached only after the key filter accepted the entry (or no filter is set)", "an index entry the key filter has not (yet) accepted is counted against the window here: the offset then skips, or the limit counts, entries that are not part of the filtered result, so pages of a filtered query overlap or come short")
 			}
 		}
 	}
